@@ -29,14 +29,22 @@ ELSEWHERE = [
  (r'^site:\(\*protocol/xbus\.pipe\)\.receiver:at:call:Close#1:1$', 'C08,C19', 'recorded as a known finding under C08 and C19 (raw BUS receiver leaves its loop on a queue resize); not reported a second time here'),
 ]
 SUBSTRATE = re.compile(r'^(message\.go|device\.go|protocol\.go|pipe\.go|options\.go|internal/core/[a-z]+\.go|transport/[a-z_]+\.go|transport/(tcp|ipc|tlstcp|ws|wss|inproc)/[a-z_]+\.go|protocol/protocol\.go)$')
-NO_SUBSTRATE = {'C20'}
+NO_SUBSTRATE = set()  # round 13: macat prints and sends over the same transports (C20-25, C20-26 were made there)
 ALL_PATTERNS = {'C01'}
 props = json.load(open(src))
 for pr in props:
     pid = pr['id']
     pr['select'] = [s for s in pr['select'] if s.get('generated') != 'anchor-files']
     pr['not_claimed'] = [n for n in pr.get('not_claimed', []) if n.get('generated') != 'anchor-files']
-    keys = sorted({k for f in anchors.get(pid, []) for k in byfile.get(f, [])})
+    # a cooked wrapper and the raw protocol it wraps are one mechanism: anchoring one anchors the other (round 13)
+    files = list(anchors.get(pid, []))
+    for f in list(files):
+        m = re.match(r'^protocol/(x?)([a-z0-9]+)/\1\2\.go$', f)
+        if m:
+            twin = f'protocol/{m.group(2)}/{m.group(2)}.go' if m.group(1) else f'protocol/x{m.group(2)}/x{m.group(2)}.go'
+            if twin in byfile and twin not in files:
+                files.append(twin)
+    keys = sorted({k for f in files for k in byfile.get(f, [])})
     if not keys: continue
     if pid not in NO_SUBSTRATE:
         # every property but macat's is stated end to end (what the peer application receives, what a later call
